@@ -184,10 +184,12 @@ def _arch(rng):
 def _tensor_bindings(rng, tensor, order, loop, buffet, style_p=0.3):
     """DRAM-like or buffet-like bindings of all ranks of a tensor (gamma pattern)."""
     out = []
-    if buffet and rng.random() < style_p:
-        # eager: the bottom rank of the tensor loaded as one subtree (sigma pattern)
+    above = loop[:loop.index(order[-1])] if order and order[-1] in loop else []
+    if buffet and above and rng.random() < style_p:
+        # eager: the bottom rank of the tensor loaded as one subtree (sigma pattern), evicted on a loop rank
+        # above it (an eager binding evicted on "root" crashes Collector.trace_tree on the unchanged tree)
         r = order[-1]
-        ev = rng.choice(["root"] + (loop[:loop.index(r)] if r in loop else []))   # evicted on a loop rank above
+        ev = rng.choice(above)
         return [{"tensor": tensor, "rank": r, "type": "payload", "format": "default", "evict-on": ev, "style": "eager"}]
     style = None
     for i, r in enumerate(order):
@@ -209,11 +211,20 @@ def gen_synth(rng):
     decl["E"] = ["M", "N"]
     decl["P"] = ["M"]
     decl["R"] = ["N"]
-    all_exprs = ["T[k, m, n] = A[k, m] * B[k, n]",
-                 rng.choice(["Z[m, n] = T[k, m, n] * C[m, n]", "Z[m, n] = T[k, m, n] * C[m, n]", "Z[m, n] = T[k, m, n]",
-                             "Z[m, n] = T[k, m, n] * C[m, n] * E[m, n]", "Z[m, n] = C[m, n] * T[k, m, n] * E[m, n]",
-                             "Z[m, n] = P[m] * R[n] * T[k, m, n]"]),
-                 "Y[m] = Z[m, n] * D[n]"]
+    decl["G"] = ["K"]
+    # operand variety: extra operands on a subset of the ranks, in any position of the product, so that the
+    # tensors co-iterated at one rank have different lower ranks (fiber vs value payloads) and the first
+    # holder of a rank differs from rank to rank
+    f1 = ["A[k, m]", "B[k, n]"] + (["G[k]"] if rng.random() < 0.3 else [])
+    if rng.random() < 0.4:
+        rng.shuffle(f1)
+    f2 = ["T[k, m, n]"] + rng.sample(["C[m, n]", "E[m, n]", "P[m]", "R[n]"], classes._choice_w(rng, [(0, 2), (1, 4), (2, 4)]))
+    if rng.random() < 0.6:
+        rng.shuffle(f2)
+    f3 = ["Z[m, n]", "D[n]"] + (["P[m]"] if rng.random() < 0.3 else [])
+    if rng.random() < 0.4:
+        rng.shuffle(f3)
+    all_exprs = ["T[k, m, n] = " + " * ".join(f1), "Z[m, n] = " + " * ".join(f2), "Y[m] = " + " * ".join(f3)]
     exprs = all_exprs[:n]
     used = set()
     for e in exprs:
@@ -274,11 +285,14 @@ def gen_synth(rng):
         ins = dense.expr_tensors(e)
         hold = classes.holders_of(spec, e)
         co = [r for r in lo[o] if len(hold.get(r, [])) >= 2]
-        isect_used = False
-        want_isect = rng.choice(["LF", "LF", "TF", "SA"]) if rng.random() < 0.5 else None
+        isect_ranks = set()
+        want_isect = [rng.choice(["LF", "LF", "TF", "SA"])] if rng.random() < 0.5 else []
+        if want_isect and rng.random() < 0.3:
+            # a second intersector of another type on other ranks of the same Einsum
+            want_isect.append(rng.choice([c for c in ("LF", "TF", "SA") if c not in want_isect]))
         for c in FUNC:
             if c in ("TF", "SA", "LF"):
-                if c != want_isect:
+                if c not in want_isect:
                     continue
             elif rng.random() > 0.35:
                 continue
@@ -293,9 +307,14 @@ def gen_synth(rng):
             elif c == "Add0":
                 bl.append({"component": c, "bindings": [{"op": "add"}]})
             elif c in ("TF", "SA", "LF"):
-                if not co or isect_used:
+                free = [r for r in co if r not in isect_ranks]
+                if c != "LF":
+                    # two-finger / skip-ahead tracing of more than two tensors is NotImplemented in the compiler
+                    free = [r for r in free if len(hold[r]) == 2]
+                if not free:
                     continue
-                rs = rng.sample(co, 2) if len(co) >= 2 and rng.random() < 0.5 else [rng.choice(co)]
+                rs = rng.sample(free, 2) if len(free) >= 2 and rng.random() < 0.5 else [rng.choice(free)]
+                isect_ranks.update(rs)
                 bs = []
                 for r in rs:
                     b = {"rank": r}
@@ -304,7 +323,6 @@ def gen_synth(rng):
                         b["leader"] = hold[r][0]
                     bs.append(b)
                 bl.append({"component": c, "bindings": bs})
-                isect_used = True
             else:
                 k = rng.randint(1, len(lo[o]))
                 bl.append({"component": "Seq", "bindings": [{"rank": r} for r in lo[o][:k]]})
@@ -386,6 +404,15 @@ def gen_synth_part(rng):
         if c == "LF":
             b["leader"] = "A"
         bl.append({"component": c, "bindings": [b]})
+    if rng.random() < 0.4:
+        # hardware merger bound to a tensor that is partitioned before the merge: init-ranks name partition levels
+        t = rng.choice(["A", "B"])
+        init = []
+        for r in decl[t]:
+            init.extend(classes.levels_of(r, len(part[r])) if r in part else [r])
+        final = [r for r in lo if r in init]
+        if init != final:
+            bl.append({"component": "Mrg", "bindings": [{"tensor": t, "init-ranks": init, "final-ranks": final}]})
     spec["bindings"] = {"Z": bl}
     meta = {"class": "M", "mkind": "synth_part", "name": "synth_part", "syms": syms, "extents": extents, "mode": "metrics",
             "nlevels": sum(len(d) for d in part.values()), "npart": len(part)}
